@@ -12,7 +12,7 @@ MANIFEST = {
     "technique": "Rocq proof over the Factory/Resolve model + vm_compute correspondence on generated wiring scenarios",
 }
 
-PROFILES = [(Profile(p_wrap=0.0, n_procs=(0, 0), p_naming=0.6, p_extra_instance=0.5, p_absent_name=0.2, p_wrongtype_name=0.25, p_valid=0.5, p_name_placeholder=0.3, p_embed_points=0.25, p_foreign_twins=0.25, p_local_twins=0.15, kind_weights={"name": 8, "ptr": 1, "iface": 1, "siface": 1, "sptr": 0.5, "any": 0.2, "func": 0.2, "other": 0}), 600, 6000)]
+PROFILES = [(Profile(p_wrap=0.0, n_procs=(0, 2), p_naming=0.6, p_extra_instance=0.5, p_absent_name=0.2, p_wrongtype_name=0.25, p_valid=0.5, p_name_placeholder=0.3, p_embed_points=0.25, p_foreign_twins=0.25, p_local_twins=0.15, kind_weights={"name": 8, "ptr": 1, "iface": 1, "siface": 1, "sptr": 0.5, "any": 0.2, "func": 0.2, "other": 0}), 600, 6000)]
 
 RULE = 'custom/default/empty custom names; requested name present, absent, present with incompatible type; fields *T, interface, any; required/optional; non-trivial = scenario has a by-name point'
 
